@@ -78,6 +78,13 @@ Theorem C11_entrypoints_agree_full :
 Proof. exact entrypoints_agree. Qed.
 Print Assumptions C11_entrypoints_agree_full.
 
+(** Compiling every chunk first and executing the programs afterwards gives the same final state and
+    the same results as evaluating chunk by chunk (every chunk list, failing chunks included). *)
+Theorem C11_compile_all_first_full :
+  forall fuel cs, y_run_call fuel y0 cs = y_run fuel y0 cs.
+Proof. exact compile_all_first0. Qed.
+Print Assumptions C11_compile_all_first_full.
+
 (** Redefining a function replaces only that function: every other symbol, all compiled code, the
     variable scope and (no [main] around) the memory are untouched — from every state. *)
 Theorem C11_redefine_local_full :
